@@ -161,7 +161,9 @@ const MIN: Duration = Duration::from_millis(20);
 const MAX: Duration = Duration::from_millis(150);
 
 /// part (b): the TCP client task with a logging wrapper around the real strategy
-async fn task_level(seed: u64, n: u64) -> (Evidence, Vec<(String, String)>) {
+/// `tls`: the same against a TLS client. The peer is a plain TCP listener, so every attempt that is not
+/// refused fails inside the TLS handshake: a failed connect like any other (doubling continues, no reset).
+async fn task_level(seed: u64, n: u64, tls: bool) -> (Evidence, Vec<(String, String)>) {
     let mut ev = Evidence::new();
     let mut problems = vec![];
     let mut rng = Rng::sub(seed, 114, n);
@@ -170,13 +172,41 @@ async fn task_level(seed: u64, n: u64) -> (Evidence, Vec<(String, String)>) {
     let mut env = Env::new();
     let log = Arc::new(Mutex::new(vec![]));
     let (gtx, mut grx) = mpsc::unbounded_channel::<GateMsg>();
-    let (channel, task) = create_tcp_client_task_with_options(
-        HostAddr::ip(IpAddr::V4(Ipv4Addr::LOCALHOST), env.port),
-        Box::new(Logging { inner: doubling_retry_strategy(MIN, MAX), log: log.clone() }),
-        Some(Box::new(crate::c13::Gate { tx: gtx })),
-        ClientOptions::default(),
-    );
-    let jh = tokio::spawn(task.run());
+    let (channel, jh) = if tls {
+        let cfg = match TlsClientConfig::full_pki(
+            Some("test.server".to_string()),
+            &crate::tls::fixture("ca1.cert.pem"),
+            &crate::tls::fixture("client_operator.cert.pem"),
+            &crate::tls::fixture("client_operator.key.pem"),
+            None,
+            MinTlsVersion::V1_2,
+        ) {
+            Ok(c) => c,
+            Err(e) => {
+                ev.inconclusive(format!("C14 TLS leg: TlsClientConfig: {e}"));
+                return (ev, problems);
+            }
+        };
+        let (channel, task) = create_tls_client_task_with_options(
+            HostAddr::ip(IpAddr::V4(Ipv4Addr::LOCALHOST), env.port),
+            Box::new(Logging { inner: doubling_retry_strategy(MIN, MAX), log: log.clone() }),
+            cfg,
+            Some(Box::new(crate::c13::Gate { tx: gtx })),
+            ClientOptions::default(),
+        );
+        (channel, tokio::spawn(task.run()))
+    } else {
+        let (channel, task) = create_tcp_client_task_with_options(
+            HostAddr::ip(IpAddr::V4(Ipv4Addr::LOCALHOST), env.port),
+            Box::new(Logging { inner: doubling_retry_strategy(MIN, MAX), log: log.clone() }),
+            Some(Box::new(crate::c13::Gate { tx: gtx })),
+            ClientOptions::default(),
+        );
+        (channel, tokio::spawn(task.run()))
+    };
+    if tls {
+        ev.count("tls_client_task_scripts", 1);
+    }
     let _ = channel.enable().await;
     let mut attempt = 0usize;
     // (state, instant of notification)
@@ -238,6 +268,11 @@ async fn task_level(seed: u64, n: u64) -> (Evidence, Vec<(String, String)>) {
     let mut k = 0u32;
     for o in outcomes.iter().take(attempt) {
         match o {
+            _ if tls => {
+                k += 1;
+                let d = (MIN * 2u32.pow(k - 1)).min(MAX);
+                want.push(Call::Fail(d));
+            }
             Beh::Refused => {
                 k += 1;
                 let d = (MIN * 2u32.pow(k - 1)).min(MAX);
@@ -300,7 +335,7 @@ async fn task_level(seed: u64, n: u64) -> (Evidence, Vec<(String, String)>) {
                         format!("{} announced {d:?} but the next Connecting came after {waited:?}", state_name(st)),
                     ));
                 }
-                ev.class(format!("wait|{}|{}ms", state_name(st), d.as_millis()));
+                ev.class(format!("wait|{}{}|{}ms", if tls { "tls|" } else { "" }, state_name(st), d.as_millis()));
             }
         }
     }
@@ -335,7 +370,7 @@ pub fn run(args: &Args) -> i32 {
         let results = rt.block_on(async {
             let mut hs = vec![];
             for i in n..hi {
-                hs.push(tokio::spawn(async move { (i, task_level(seed, i).await) }));
+                hs.push(tokio::spawn(async move { (i, task_level(seed, i, i % 4 == 3).await) }));
             }
             let mut out = vec![];
             for h in hs {
